@@ -97,4 +97,267 @@ example :
     (Builder.withAddresses 0x21 .stream a).run (tlvOps [⟨1, [0x68, 0x32]⟩, ⟨0x30, []⟩]) =
       some (Spec.V2.encode .proxy .stream a [1, 0, 2, 0x68, 0x32, 0x30, 0, 0]) := by decide
 
+/-! ### End to end: the builder's own output parses back (audit 3, C07 (a)/(e)) -/
+
+/-- A TLV section that fits in `n` bytes has no value longer than `n`: the
+per-value hypothesis `hv` of `build_is_encoding` follows from `hfit`. -/
+theorem values_le_of_fit (tlvs : List Tlv) (n : Nat) (hfit : (tlvs.flatMap Spec.Tlv.enc).length ≤ n) :
+    ∀ t ∈ tlvs, t.value.length ≤ n := by
+  induction tlvs with
+  | nil => intro t ht; cases ht
+  | cons t ts ih =>
+    simp only [List.flatMap_cons, List.length_append, Spec.Tlv.enc, List.length_cons] at hfit
+    intro t' ht'
+    rcases List.mem_cons.mp ht' with rfl | h
+    · omega
+    · exact ih (by omega) t' h
+
+/-- No `set_length` call in a history: no explicit length is in force. -/
+theorem lengthInForce_none_of_no_setLength (ops : List Op) (h : ∀ op ∈ ops, ∀ l, op ≠ .setLength l) :
+    lengthInForce ops = none := by
+  suffices hs : ∀ acc, lengthFrom acc ops = acc from hs none
+  induction ops with
+  | nil => intro acc; rfl
+  | cons op ops ih =>
+    intro acc
+    rw [lengthFrom_cons, ih (fun o ho => h o (List.mem_cons_of_mem _ ho))]
+    cases op with
+    | setLength l => exact absurd rfl (h _ (List.mem_cons_self ..) l)
+    | reserve n => rfl
+    | writePayload p => rfl
+    | writePayloads ps => rfl
+    | writeTlv k v => rfl
+
+/-- Payloads that each encode as one TLV encode, in order, as the TLV section. -/
+theorem encAll_map_tlv (f : Tlv → Payload)
+    (hf : ∀ t, t.value.length ≤ 65535 → enc (f t) = some (Spec.Tlv.enc t))
+    (tlvs : List Tlv) (hv : ∀ t ∈ tlvs, t.value.length ≤ 65535) :
+    encAll (tlvs.map f) = some (tlvs.flatMap Spec.Tlv.enc) := by
+  induction tlvs with
+  | nil => rfl
+  | cons t ts ih =>
+    have ht := hf t (hv t (List.mem_cons_self ..))
+    have := ih (fun t' h' => hv t' (List.mem_cons_of_mem _ h'))
+    simp only [List.map_cons, List.flatMap_cons, encAll, ht, this]
+
+/-- **C07 (wire format), any route.** Whatever calls are used, if the reference
+body of the history (`Spec.Builder.body`: the specified encodings of the written
+values, in call order) is `e`, no explicit length is in force and everything fits
+in 65535 bytes, the built header is the PROXY v2 wire encoding with section `e`. -/
+theorem build_is_encoding_of_body (cmd : Command) (tr : Transport) (addr : Addresses) (ops : List Op)
+    (e : B) (he : body ops = some e) (hno : lengthInForce ops = none)
+    (hfit : (Spec.V2.addrBytes addr).length + e.length ≤ 65535) :
+    (Builder.withAddresses (vcByte .two cmd) tr addr).run ops = some (Spec.V2.encode cmd tr addr e) := by
+  rw [run_succeeds (shape_withAddresses _ tr addr) ops e he hfit, hno]
+  simp only [buildOf, hfit, if_true, hdrOf, Spec.V2.encode, sig_eq_spec, vc_eq_spec,
+    afpByte_eq_spec, be16Bytes, Spec.V2.u16be]
+
+/-- **C07 (round trip), any route.** The bytes the builder returns, followed by
+any trailer, parse back to the command, transport and addresses the builder was
+given; the parsed header is exactly the built bytes; and, when an address family
+is specified, iterating it yields the written TLVs in order. -/
+theorem roundtrip_of_body (cmd : Command) (tr : Transport) (addr : Addresses) (tlvs : List Tlv)
+    (ops : List Op) (he : body ops = some (tlvs.flatMap Spec.Tlv.enc)) (hno : lengthInForce ops = none)
+    (hfit : (Spec.V2.addrBytes addr).length + (tlvs.flatMap Spec.Tlv.enc).length ≤ 65535) (trail : B) :
+    ∃ out h, (Builder.withAddresses (vcByte .two cmd) tr addr).run ops = some out ∧
+      V2.parse (out ++ trail) = .ok h ∧ h.header = out ∧ h.version = .two ∧ h.command = cmd ∧
+      h.protocol = tr ∧ h.addresses = addr ∧
+      (addr.family ≠ .unspec → h.tlvs = tlvs.map .ok) :=
+  ⟨_, _, build_is_encoding_of_body cmd tr addr ops _ he hno hfit,
+    parses_back cmd tr addr tlvs hfit trail, rfl, rfl, rfl, rfl, rfl,
+    tlvs_back cmd tr addr tlvs (values_le_of_fit tlvs _ (by omega))⟩
+
+/-- **C07 (round trip).** The header built from a command, a transport, an address
+value and a TLV list (`write_tlv` each) whose encoding fits in 65535 bytes parses
+back — with any trailer — to the same command, transport, addresses and header
+bytes, and (family specified) to the same TLVs in the same order. -/
+theorem roundtrip (cmd : Command) (tr : Transport) (addr : Addresses) (tlvs : List Tlv)
+    (hfit : (Spec.V2.addrBytes addr).length + (tlvs.flatMap Spec.Tlv.enc).length ≤ 65535) (trail : B) :
+    ∃ out h, (Builder.withAddresses (vcByte .two cmd) tr addr).run (tlvOps tlvs) = some out ∧
+      V2.parse (out ++ trail) = .ok h ∧ h.header = out ∧ h.version = .two ∧ h.command = cmd ∧
+      h.protocol = tr ∧ h.addresses = addr ∧
+      (addr.family ≠ .unspec → h.tlvs = tlvs.map .ok) :=
+  roundtrip_of_body cmd tr addr tlvs _
+    (encAll_tlvOps tlvs (values_le_of_fit tlvs _ (by omega))) (lengthInForce_tlvOps tlvs) hfit trail
+
+/-- The calls that write a list of TLVs through `write_payload` of a value built by `f`. -/
+def payloadOps (f : Tlv → Payload) (tlvs : List Tlv) : List Op := tlvs.map (fun t => .writePayload (f t))
+
+theorem body_payloadOps (f : Tlv → Payload)
+    (hf : ∀ t, t.value.length ≤ 65535 → enc (f t) = some (Spec.Tlv.enc t))
+    (tlvs : List Tlv) (hv : ∀ t ∈ tlvs, t.value.length ≤ 65535) :
+    body (payloadOps f tlvs) = some (tlvs.flatMap Spec.Tlv.enc) := by
+  have : (payloadOps f tlvs).flatMap opPayloads = tlvs.map f := by
+    induction tlvs with
+    | nil => rfl
+    | cons t ts ih =>
+      have := ih (fun t' h' => hv t' (List.mem_cons_of_mem _ h'))
+      simp only [payloadOps, List.map_cons, List.flatMap_cons, opPayloads] at this ⊢
+      rw [this]; rfl
+  rw [Spec.Builder.body, this]
+  exact encAll_map_tlv f hf tlvs hv
+
+theorem lengthInForce_payloadOps (f : Tlv → Payload) (tlvs : List Tlv) :
+    lengthInForce (payloadOps f tlvs) = none := by
+  apply lengthInForce_none_of_no_setLength
+  intro op hop l hl
+  obtain ⟨t, -, rfl⟩ := List.mem_map.mp hop
+  cases hl
+
+theorem enc_tlv_of_le (t : Tlv) (h : t.value.length ≤ 65535) :
+    enc (.tlv t.kind t.value) = some (Spec.Tlv.enc t) := by simp only [enc, h, if_true]
+
+theorem enc_pair_of_le (t : Tlv) (h : t.value.length ≤ 65535) :
+    enc (.pair t.kind t.value) = some (Spec.Tlv.enc t) := by simp only [enc, h, if_true]
+
+/-- **C07 (round trip), `write_payload` of a `(type, bytes)` pair each.** -/
+theorem roundtrip_pairs (cmd : Command) (tr : Transport) (addr : Addresses) (tlvs : List Tlv)
+    (hfit : (Spec.V2.addrBytes addr).length + (tlvs.flatMap Spec.Tlv.enc).length ≤ 65535) (trail : B) :
+    ∃ out h, (Builder.withAddresses (vcByte .two cmd) tr addr).run
+        (tlvs.map (fun t => Op.writePayload (.pair t.kind t.value))) = some out ∧
+      V2.parse (out ++ trail) = .ok h ∧ h.header = out ∧ h.version = .two ∧ h.command = cmd ∧
+      h.protocol = tr ∧ h.addresses = addr ∧
+      (addr.family ≠ .unspec → h.tlvs = tlvs.map .ok) :=
+  roundtrip_of_body cmd tr addr tlvs (payloadOps (fun t => .pair t.kind t.value) tlvs)
+    (body_payloadOps _ enc_pair_of_le tlvs (values_le_of_fit tlvs _ (by omega)))
+    (lengthInForce_payloadOps _ tlvs) hfit trail
+
+/-- **C07 (round trip), `write_payload` of a `TypeLengthValue` each.** -/
+theorem roundtrip_tlv_payloads (cmd : Command) (tr : Transport) (addr : Addresses) (tlvs : List Tlv)
+    (hfit : (Spec.V2.addrBytes addr).length + (tlvs.flatMap Spec.Tlv.enc).length ≤ 65535) (trail : B) :
+    ∃ out h, (Builder.withAddresses (vcByte .two cmd) tr addr).run
+        (tlvs.map (fun t => Op.writePayload (.tlv t.kind t.value))) = some out ∧
+      V2.parse (out ++ trail) = .ok h ∧ h.header = out ∧ h.version = .two ∧ h.command = cmd ∧
+      h.protocol = tr ∧ h.addresses = addr ∧
+      (addr.family ≠ .unspec → h.tlvs = tlvs.map .ok) :=
+  roundtrip_of_body cmd tr addr tlvs (payloadOps (fun t => .tlv t.kind t.value) tlvs)
+    (body_payloadOps _ enc_tlv_of_le tlvs (values_le_of_fit tlvs _ (by omega)))
+    (lengthInForce_payloadOps _ tlvs) hfit trail
+
+/-- **C07 (round trip), ONE `write_payloads` batch** of values each built by `f`
+(a `TypeLengthValue` or a `(type, bytes)` pair; see the two corollaries). -/
+theorem roundtrip_batch_of (f : Tlv → Payload)
+    (hf : ∀ t, t.value.length ≤ 65535 → enc (f t) = some (Spec.Tlv.enc t))
+    (cmd : Command) (tr : Transport) (addr : Addresses) (tlvs : List Tlv)
+    (hfit : (Spec.V2.addrBytes addr).length + (tlvs.flatMap Spec.Tlv.enc).length ≤ 65535) (trail : B) :
+    ∃ out h, (Builder.withAddresses (vcByte .two cmd) tr addr).run [.writePayloads (tlvs.map f)] = some out ∧
+      V2.parse (out ++ trail) = .ok h ∧ h.header = out ∧ h.version = .two ∧ h.command = cmd ∧
+      h.protocol = tr ∧ h.addresses = addr ∧
+      (addr.family ≠ .unspec → h.tlvs = tlvs.map .ok) := by
+  refine roundtrip_of_body cmd tr addr tlvs [.writePayloads (tlvs.map f)] ?_ rfl hfit trail
+  simp only [Spec.Builder.body, List.flatMap_cons, List.flatMap_nil, opPayloads, List.append_nil]
+  exact encAll_map_tlv f hf tlvs (values_le_of_fit tlvs _ (by omega))
+
+/-- **C07 (round trip), one `write_payloads` batch of `TypeLengthValue`s.** -/
+theorem roundtrip_batch (cmd : Command) (tr : Transport) (addr : Addresses) (tlvs : List Tlv)
+    (hfit : (Spec.V2.addrBytes addr).length + (tlvs.flatMap Spec.Tlv.enc).length ≤ 65535) (trail : B) :
+    ∃ out h, (Builder.withAddresses (vcByte .two cmd) tr addr).run
+        [.writePayloads (tlvs.map (fun t => .tlv t.kind t.value))] = some out ∧
+      V2.parse (out ++ trail) = .ok h ∧ h.header = out ∧ h.version = .two ∧ h.command = cmd ∧
+      h.protocol = tr ∧ h.addresses = addr ∧
+      (addr.family ≠ .unspec → h.tlvs = tlvs.map .ok) :=
+  roundtrip_batch_of _ enc_tlv_of_le cmd tr addr tlvs hfit trail
+
+/-- **C07 (round trip), one `write_payloads` batch of `(type, bytes)` pairs.** -/
+theorem roundtrip_batch_pairs (cmd : Command) (tr : Transport) (addr : Addresses) (tlvs : List Tlv)
+    (hfit : (Spec.V2.addrBytes addr).length + (tlvs.flatMap Spec.Tlv.enc).length ≤ 65535) (trail : B) :
+    ∃ out h, (Builder.withAddresses (vcByte .two cmd) tr addr).run
+        [.writePayloads (tlvs.map (fun t => .pair t.kind t.value))] = some out ∧
+      V2.parse (out ++ trail) = .ok h ∧ h.header = out ∧ h.version = .two ∧ h.command = cmd ∧
+      h.protocol = tr ∧ h.addresses = addr ∧
+      (addr.family ≠ .unspec → h.tlvs = tlvs.map .ok) :=
+  roundtrip_batch_of _ enc_pair_of_le cmd tr addr tlvs hfit trail
+
+/-- Non-vacuity of the round trip: an IPv4 block, two TLVs written as one batch
+of pairs, a two-byte trailer; parses back to the same parts. -/
+example :
+    let a : Addresses := .ipv4 { srcAddr := ⟨1, 2, 3, 4⟩, srcPort := 1, dstAddr := ⟨5, 6, 7, 8⟩, dstPort := 2 }
+    ((Builder.withAddresses (vcByte .two .proxy) .stream a).run
+        [.writePayloads [.pair 1 [0x68, 0x32], .pair 0x30 []]]).map (fun out =>
+      (V2.parse (out ++ [7, 7])).toOption.map (fun h =>
+        h.header == out && h.addresses == a && h.tlvs == [.ok ⟨1, [0x68, 0x32]⟩, .ok ⟨0x30, []⟩])) =
+      some (some true) := by decide +kernel
+
+/-- The hypotheses of `roundtrip_of_body` (hence of every variant) are satisfiable: the batch above
+has the TLV section as its reference body, no explicit length, and fits. -/
+example :
+    let a : Addresses := .ipv4 { srcAddr := ⟨1, 2, 3, 4⟩, srcPort := 1, dstAddr := ⟨5, 6, 7, 8⟩, dstPort := 2 }
+    let tlvs : List Tlv := [⟨1, [0x68, 0x32]⟩, ⟨0x30, []⟩]
+    let ops : List Op := [.writePayloads [.pair 1 [0x68, 0x32], .pair 0x30 []]]
+    Spec.Builder.body ops = some (tlvs.flatMap Spec.Tlv.enc) ∧ lengthInForce ops = none ∧
+    (Spec.V2.addrBytes a).length + (tlvs.flatMap Spec.Tlv.enc).length ≤ 65535 := by decide
+
+/-! ### Named TLV types on the built bytes (audit 3, C07 (a), third item) -/
+
+/-- A TLV of a named type, with the registered code of the protocol text. -/
+def namedTlv (p : TlvType × B) : Tlv := ⟨typeCode p.1, p.2⟩
+
+/-- Byte offset of the `j`-th TLV inside a section. -/
+def tlvOffset (tlvs : List Tlv) (j : Nat) : Nat := ((tlvs.take j).map (fun t => 3 + t.value.length)).sum
+
+/-- The first byte of the `j`-th TLV of an encoded section is its type. -/
+theorem byteAt_section_kind (tlvs : List Tlv) (j : Nat) (hj : j < tlvs.length) (post : B) :
+    byteAt (tlvs.flatMap Spec.Tlv.enc ++ post) (tlvOffset tlvs j) = tlvs[j].kind := by
+  induction tlvs generalizing j with
+  | nil => cases hj
+  | cons t ts ih =>
+    cases j with
+    | zero => simp [tlvOffset, Spec.Tlv.enc]
+    | succ j =>
+      have hlen : (Spec.Tlv.enc t).length = 3 + t.value.length := by
+        simp only [Spec.Tlv.enc, List.length_cons]; omega
+      have hoff : tlvOffset (t :: ts) (j + 1) = (Spec.Tlv.enc t).length + tlvOffset ts j := by
+        simp only [tlvOffset, List.take_succ_cons, List.map_cons, List.sum_cons, hlen]
+      rw [hoff, List.flatMap_cons, List.append_assoc, byteAt_append_right (by omega),
+        Nat.add_sub_cancel_left]
+      simpa using ih j (by simpa using hj)
+
+/-- **C07 (codes, on the built bytes).** Writing TLVs of named types (`write_tlv(Type::X, value)`,
+i.e. the model's discriminant `TlvType.code`) builds the wire encoding whose TLVs carry the
+*registered* codes `Spec.Builder.typeCode`: the first byte of the `j`-th TLV in the built bytes —
+at offset 16 + address block + the sizes of the TLVs before it — is the registered code of its type;
+and parsing the built bytes back yields those registered codes. -/
+theorem named_type_codes_on_bytes (cmd : Command) (tr : Transport) (addr : Addresses)
+    (nts : List (TlvType × B))
+    (hfit : (Spec.V2.addrBytes addr).length + ((nts.map namedTlv).flatMap Spec.Tlv.enc).length ≤ 65535)
+    (trail : B) :
+    ∃ out h, (Builder.withAddresses (vcByte .two cmd) tr addr).run
+        (nts.map (fun p => Op.writeTlv p.1.code p.2)) = some out ∧
+      out = Spec.V2.encode cmd tr addr ((nts.map namedTlv).flatMap Spec.Tlv.enc) ∧
+      (∀ j (hj : j < nts.length),
+        byteAt out (16 + (Spec.V2.addrBytes addr).length + tlvOffset (nts.map namedTlv) j) =
+          typeCode nts[j].1) ∧
+      V2.parse (out ++ trail) = .ok h ∧ h.header = out ∧
+      (addr.family ≠ .unspec → h.tlvs = nts.map (fun p => .ok ⟨typeCode p.1, p.2⟩)) := by
+  have hops : nts.map (fun p => Op.writeTlv p.1.code p.2) = tlvOps (nts.map namedTlv) := by
+    simp only [tlvOps, List.map_map]
+    apply List.map_congr_left
+    intro p _
+    simp only [Function.comp, namedTlv, typeCode_eq]
+  obtain ⟨out, h, h1, h2, h3, -, -, -, -, h8⟩ := roundtrip cmd tr addr (nts.map namedTlv) hfit trail
+  have hout : out = Spec.V2.encode cmd tr addr ((nts.map namedTlv).flatMap Spec.Tlv.enc) := by
+    have := build_is_encoding cmd tr addr (nts.map namedTlv)
+      (values_le_of_fit _ _ (by omega)) hfit
+    rw [h1] at this; exact Option.some.inj this
+  refine ⟨out, h, by rw [hops]; exact h1, hout, ?_, h2, h3, ?_⟩
+  · intro j hj
+    have hpre : (Spec.V2.signature ++ [Spec.V2.versionCommand cmd, Spec.V2.familyTransport addr.family tr] ++
+        Spec.V2.u16be ((Spec.V2.addrBytes addr).length +
+          ((nts.map namedTlv).flatMap Spec.Tlv.enc).length) ++ Spec.V2.addrBytes addr).length =
+        16 + (Spec.V2.addrBytes addr).length := by
+      simp [Spec.V2.signature, Spec.V2.u16be]; omega
+    rw [hout, Spec.V2.encode, byteAt_append_right (by rw [hpre]; omega), hpre, Nat.add_sub_cancel_left]
+    have := byteAt_section_kind (nts.map namedTlv) j (by simpa using hj) []
+    simpa [namedTlv] using this
+  · intro hfam
+    rw [h8 hfam, List.map_map]; rfl
+
+/-- Non-vacuity: an ALPN and a NETNS TLV behind an IPv4 block; bytes 28 and 33 of the built header
+are the registered codes 0x01 and 0x30. -/
+example :
+    let a : Addresses := .ipv4 { srcAddr := ⟨1, 2, 3, 4⟩, srcPort := 1, dstAddr := ⟨5, 6, 7, 8⟩, dstPort := 2 }
+    ((Builder.withAddresses (vcByte .two .proxy) .stream a).run
+        [.writeTlv TlvType.alpn.code [0x68, 0x32], .writeTlv TlvType.networkNamespace.code [9]]).map
+      (fun out => (byteAt out 28, byteAt out 33)) = some (0x01, 0x30) := by decide +kernel
+
 end C07
